@@ -1,6 +1,7 @@
 package c09
 
 import (
+	"os"
 	"fmt"
 	"math/big"
 	"sort"
@@ -23,7 +24,7 @@ import (
 
 func TestMain(m *testing.M) { drv.Main(m) }
 
-const rule = "state machine on the real application: MsgCreateGauge (perpetual / N-epoch, by-duration on a lockable duration, reward coins in uosmo and in a denom valued through a protorev-registered pool, start time past/now/future), MsgAddToGauge, lock / begin-unlock / reward-receiver changes between epochs, minimum-value parameter changes, and epoch ends driven through the real x/epochs BeginBlocker (so the incentives hook runs in its hook context); oracle per epoch computed from state read before the epoch block: every qualifying lock's receiver gets floor(remaining x lockAmt / (lockSum x remainingEpochs)) per coin unless below the minimum value (own denom: amount < min; other denom: compared through the pool's own CalcOutAmtGivenIn; the <=100-unit single-coin anti-spam rule as coded), gauge distributed coins grow by the same total, sum distributed <= deposited, module balance >= undistributed remainder of unfinished gauges, upcoming -> active at the first epoch end with blockTime >= start, non-perpetual gauges finish after exactly N paying epochs and then neither pay nor accept top-ups; non-trivial = >= 2 qualifying locks with different receivers, >= 3 epochs and a lock change between epochs; distinct by history hash"
+const rule = "state machine on the real application: MsgCreateGauge (perpetual / N-epoch, by-duration on a lockable duration, reward coins in uosmo and in a denom valued through a protorev-registered pool, start time past/now/future), MsgAddToGauge, lock / extend-lock / begin-unlock / reward-receiver changes between epochs, minimum-value parameter changes, and epoch ends driven through the real x/epochs BeginBlocker (so the incentives hook runs in its hook context); oracle per epoch computed from state read before the epoch block: every qualifying lock's receiver gets floor(remaining x lockAmt / (lockSum x remainingEpochs)) per coin unless below the minimum value (own denom: amount < min; other denom: compared through the pool's own CalcOutAmtGivenIn; the <=100-unit single-coin anti-spam rule as coded), gauge distributed coins grow by the same total, sum distributed <= deposited, module balance >= undistributed remainder of unfinished gauges, upcoming -> active at the first epoch end with blockTime >= start, non-perpetual gauges finish after exactly N paying epochs and then neither pay nor accept top-ups; non-trivial = >= 2 qualifying locks with different receivers, >= 3 epochs and a lock change between epochs; distinct by history hash"
 
 const lockDenom = "lptoken"
 
@@ -99,9 +100,15 @@ func TestPropGauges(t *testing.T) {
 			}
 			return g
 		}
+		// the live locks, read record by record (ids 1..last): the reference must not go through the lockup module's
+		// reference indexes, which are what the distribution itself iterates
 		lockIDs := func() []lockuptypes.PeriodLock {
-			ls, _ := c.App.LockupKeeper.GetPeriodLocks(c.Ctx)
-			sort.Slice(ls, func(i, j int) bool { return ls[i].ID < ls[j].ID })
+			var ls []lockuptypes.PeriodLock
+			for id := uint64(1); id <= c.App.LockupKeeper.GetLastLockID(c.Ctx); id++ {
+				if l, err := c.App.LockupKeeper.GetLockByID(c.Ctx, id); err == nil && l != nil {
+					ls = append(ls, *l)
+				}
+			}
 			return ls
 		}
 		invariants := func() {
@@ -248,6 +255,21 @@ func TestPropGauges(t *testing.T) {
 				if r := c.Exec(lockuptypes.NewMsgBeginUnlocking(owner, l.ID, nil)); r.OK() {
 					lockChanges++
 					hist = append(hist, fmt.Sprintf("unlock #%d", l.ID))
+				}
+			},
+			"extend": func(rt *rapid.T) {
+				ls := lockIDs()
+				if len(ls) == 0 {
+					rt.Skip("no locks")
+				}
+				l := ls[rapid.IntRange(0, len(ls)-1).Draw(rt, "lock")]
+				owner, _ := sdk.AccAddressFromBech32(l.Owner)
+				dur := durs[rapid.IntRange(0, len(durs)-1).Draw(rt, "duration")] + time.Duration(rapid.Int64Range(0, 1).Draw(rt, "durOff"))
+				// only a longer duration on a lock that is not unlocking is accepted; the lock then qualifies for more gauges
+				if r := c.Exec(lockuptypes.NewMsgExtendLockup(owner, l.ID, dur)); r.OK() {
+					lockChanges++
+					cs.Class("lock-extended")
+					hist = append(hist, fmt.Sprintf("extend #%d -> %s", l.ID, dur))
 				}
 			},
 			"setReceiver": func(rt *rapid.T) {
@@ -402,6 +424,9 @@ func TestPropGauges(t *testing.T) {
 					before[chain.Actor(a).String()] = cmap(c.App.BankKeeper.GetAllBalances(c.Ctx, chain.Actor(a)))
 				}
 				epochBefore := c.App.EpochsKeeper.GetEpochInfo(c.Ctx, epochID).CurrentEpoch
+				if os.Getenv("VERIF_DEBUG") != "" {
+					fmt.Printf("DBG epoch: locks=%d listed=%d expect=%v hist=%v\n", len(locks), len(c.App.LockupKeeper.GetLocksLongerThanDurationDenom(c.Ctx, lockDenom, time.Millisecond)), expect, hist)
+				}
 				c.App.EpochsKeeper.BeginBlocker(c.Ctx)
 				if got := c.App.EpochsKeeper.GetEpochInfo(c.Ctx, epochID).CurrentEpoch; got != epochBefore+1 {
 					rt.Fatalf("harness: epoch did not tick (%d -> %d)", epochBefore, got)
